@@ -92,7 +92,8 @@ def gen_case(rng, max_conf=9):
             nonnil.append(dict(pp=NOPOS, cp=cp, pr=60, cr=61))
         else:
             nil = []
-            pp = (True, f, rng.randint(1, 40), 1) if rng.random() < 0.5 else NOPOS
+            # producers from a small pool: same line with different columns, same column on different lines
+            pp = (True, f, rng.choice([3, 3, 4, 17]), rng.choice([1, 1, 6, 9])) if rng.random() < 0.6 else NOPOS
             nonnil = [dict(pp=pp, cp=(True, f, l, c), pr=rng.choice([70, 71]), cr=rng.choice([80, 81]))]
         conflicts.append(dict(id=i, pos=(f, l, c, off), nil=nil, nonnil=nonnil))
     # a few conflicts share the exact sort key (file, offset) with another one
